@@ -114,7 +114,7 @@ class C20(Prop):
     lean_modules = ["EaselModel.Props.C20"]
     lean_exe = "c20_driver"
     harness = "h_simd.c"
-    harness_flags = ["-msse4.1"]      # the AVX2 / AVX-512 parts of the harness are `#pragma GCC target` regions
+    harness_flags = ["-msse4.1", "-Wl,--allow-multiple-definition"]      # the AVX2 / AVX-512 parts of the harness are `#pragma GCC target` regions
     theorems = ["EaselModel.Props.C20." + t for t in (
         "sse_hmax_epu8", "sse_hmax_epi8", "sse_hmax_epi16", "avx_hmax_epu8", "avx_hmax_epi8", "avx_hmax_epi16", "avx512_hmax_epu8", "avx512_hmax_epi8", "avx512_hmax_epi16", "sse_hsum_ps", "avx_hsum_ps", "avx512_hsum_ps", "sse_hmax_ps", "sse_hmin_ps", "sse_any_gt_epu8", "sse_any_gt_epi16", "avx_any_gt_epi16", "sse_any_gt_ps", "sse_select_ps", "sse_rightshiftz_float", "sse_leftshiftz_float", "avx_rightshiftz_float", "avx_leftshiftz_float", "avx512_rightshiftz_float", "avx512_leftshiftz_float", "sse_rightshift_ps", "sse_leftshift_ps", "sse_rightshift_int8", "sse_rightshift_int16", "avx_rightshift_int8", "avx_rightshift_int16", "avx512_rightshift_int8", "avx512_rightshift_int16", "logf_negative", "logf_zero_subnormal", "logf_inf_nan", "expf_underflow", "expf_overflow", "expf_cutoffs_in_window", "expf_nan", "sum_eq_real", "dot_eq_real", "vmax_spec", "vmin_spec", "argmax_spec", "argmin_spec", "argmax_nil", "sortIncreasing_spec", "sortDecreasing_spec", "norm_of_sum_ne_zero", "norm_of_sum_zero", "entropy_eq", "cdf_spec", "validate_spec", "logSum_all_ninf", "logSum_spec", "logSum_of_max_pinf", "logNorm_spec", "relEntropyGo_spec", "isum_eq", "idot_eq", "log2Sum_spec", "rightshift_fill", "logSum_spec_F", "log2Sum_spec_F", "hmaxU_spec", "hmaxS_spec", "sse_hsum_ps_real", "avx_hsum_ps_real", "avx512_hsum_ps_real", "sse_hmax_ps_real", "sse_hmin_ps_real", "dot_rounding", "kahan_rounding", "mat_cell_in_block", "mat_cell_inj", "mat_cell_surj")]
     claimed = True
@@ -590,13 +590,41 @@ class C20(Prop):
             if w[2] != "rows=rowmajor": return "esl_mat_%sGrowTo (%dx%d -> %dx%d): row pointers do not tile the block in row-major order" % (T, M, N, M2, N2)
         return None
 
+    # ---- the qsort comparators themselves
+    def cmp_cases(self, ctx):
+        rng = ctx.rng
+        ops = []
+        dv = [0.0, -0.0, 1.0, -1.0, 1.5, math.inf, -math.inf, 1e308, -1e308, 5e-324, 2.0 ** 53, 1.0000000000000002]
+        fv = [0.0, -0.0, 1.0, -1.0, 1.5, math.inf, -math.inf, 3e38, -3e38, 1e-45, 16777216.0, 1.0000001]
+        iv = [0, 1, -1, 2, -(1 << 31), (1 << 31) - 1, 2000000000, -2000000000, 1 << 30, 7]
+        lv = iv + [1 << 31, -(1 << 31) - 1, 1 << 32, -(1 << 32), (1 << 63) - 1, -(1 << 63), 1 << 62, (1 << 32) + 1]
+        for T, vals, enc in (("D", dv, lambda x: "%016x" % bits_of_f64(x)), ("F", fv, lambda x: "%08x" % bits_of_f32(x)),
+                             ("I", iv, lambda x: "%08x" % (x & 0xFFFFFFFF)), ("L", lv, lambda x: "%016x" % (x & 0xFFFFFFFFFFFFFFFF))):
+            pairs = [(a, b) for a in vals for b in vals]
+            rng.shuffle(pairs)
+            for a, b in pairs[:60] + [(x, x) for x in vals[:4]]:
+                for d in ("Increasing", "Decreasing"):
+                    ops.append("cmp op=%s%s a=%s b=%s" % (T, d, enc(a), enc(b)))
+        return [{"name": "cmp%d" % i, "ops": ops[i:i + 60]} for i in range(0, len(ops), 60)]
+
+    def cmp_check(self, kvs, line):
+        T, inc = kvs["op"][0], kvs["op"][1:] == "Increasing"
+        ua, ub = int(kvs["a"], 16), int(kvs["b"], 16)
+        if T == "D": a, b = f64_of_bits(ua), f64_of_bits(ub)
+        elif T == "F": a, b = f32_of_bits(ua), f32_of_bits(ub)
+        elif T == "I": a, b = (ua ^ 0x80000000) - 0x80000000, (ub ^ 0x80000000) - 0x80000000
+        else: a, b = (ua ^ (1 << 63)) - (1 << 63), (ub ^ (1 << 63)) - (1 << 63)
+        exp = (a > b) - (a < b)
+        if not inc: exp = -exp
+        return None if line.split()[1] == str(exp) else "qsort_%s%s(%r, %r) has sign %s, a three-way comparison gives %d" % (T, kvs["op"][1:], a, b, line.split()[1], exp)
+
     def cases(self, ctx):
-        out = self.intr_cases(ctx) + self.helper_cases(ctx) + self.logexp_cases(ctx) + self.vec_cases(ctx) + self.mat_cases(ctx)
+        out = self.cmp_cases(ctx) + self.intr_cases(ctx) + self.helper_cases(ctx) + self.logexp_cases(ctx) + self.vec_cases(ctx) + self.mat_cases(ctx)
         st = {}
         for c in out:
             for op in c["ops"]:
                 w = op.split()
-                key = w[0] + ":" + (w[1].split("=")[1] if len(w) > 1 and w[0] in ("simd", "intr", "vec", "lane32", "mat") else "")
+                key = w[0] + ":" + (w[1].split("=")[1] if len(w) > 1 and w[0] in ("simd", "intr", "vec", "lane32", "mat", "cmp") else "")
                 st[key] = st.get(key, 0) + 1
         self._dist = st
         return out
@@ -836,6 +864,9 @@ class C20(Prop):
                 for z in range(4):
                     m = self.lane_judge(name, xin[z], res[z], ref[z])
                     if m: return Failure("monitor", "esl_sse_%s lane %d: %s" % (name, z, m))
+            elif name == "cmp":
+                m = self.cmp_check(kvs, l)
+                if m: return Failure("monitor", m)
             elif name == "mat":
                 m = self.mat_check(kvs, l)
                 if m: return Failure("monitor", m + "  [%s]" % op[:120])
